@@ -32,7 +32,8 @@ BOUNDS_TEXT = ("s-expressions from a menu: 14 node kinds (module, class, functio
                "instance, reference, dereference, list, tuple, dictionary, persistent, unpersistable, atom) x 9 "
                "names (configurations 0-2: allowed module, os, os.system, subprocess.Popen, builtins.eval, allowed "
                "class, class of the allowed module that is not allowed, registered unjellyable, function of the "
-               "allowed module; configuration 3: package vc45pkg, os.system, vc45pkg.f, vc45pkg.ok_sub.f, "
+               "allowed module, and for configuration 0 also vc45mod.Sub, a not-allowed SUBCLASS of the allowed class; "
+               "configuration 3: package vc45pkg, os.system, vc45pkg.f, vc45pkg.ok_sub.f, "
                "vc45pkg.hidden_sub.f, vc45pkg.hidden_sub.Cls, vc45pkg.ok_sub.Cls, vc45mod.Allowed, vc45mod.func); "
                "shapes (which child positions hold a symbolic node, all others a fixed atom): 0 = single node, "
                "1 = root + first child, 2 = root + second child, 3 = depth 2 chain root -> first child -> its "
@@ -93,6 +94,13 @@ def _mkmod():
             INSTANTIATED.append(cls)
             return object.__new__(cls)
 
+    class Sub(Allowed):
+        """subclass of the allowed class, in the same allowed module, NOT allowed itself"""
+
+        def __setstate__(self, state):
+            INSTANTIATED.append(("setstate", Sub))
+            self.__dict__ = state
+
     class Reg(J.Unjellyable):
         def __new__(cls, *a):
             INSTANTIATED.append(cls)
@@ -107,7 +115,7 @@ def _mkmod():
     def func():
         return 3
 
-    for o in (Allowed, Hidden, Reg, Bag, func, Allowed.meth, Hidden.meth):
+    for o in (Allowed, Hidden, Sub, Reg, Bag, func, Allowed.meth, Hidden.meth):
         o.__module__ = MODNAME
         o.__qualname__ = o.__name__
         setattr(m, o.__name__, o)
@@ -117,7 +125,7 @@ def _mkmod():
 
 
 MOD = _mkmod()
-Allowed, Hidden, Reg, Bag, func = MOD.Allowed, MOD.Hidden, MOD.Reg, MOD.Bag, MOD.func
+Allowed, Hidden, Sub, Reg, Bag, func = MOD.Allowed, MOD.Hidden, MOD.Sub, MOD.Reg, MOD.Bag, MOD.func
 
 PKG = "vc45pkg"
 
@@ -165,7 +173,10 @@ _NAMES_FLAT = [b"vc45mod", b"os", b"os.system", b"subprocess.Popen", b"builtins.
 _NAMES_PKG = [b"vc45pkg", b"os.system", b"vc45pkg.f", b"vc45pkg.ok_sub.f", b"vc45pkg.hidden_sub.f",
               b"vc45pkg.hidden_sub.Cls", b"vc45pkg.ok_sub.Cls", b"vc45mod.Allowed", b"vc45mod.func"]
 NAMES = _NAMES_FLAT
-NAMES_BY_CFG = {0: _NAMES_FLAT, 1: _NAMES_FLAT, 2: _NAMES_FLAT, 3: _NAMES_PKG}
+# configuration 0 (allowInstancesOf(Allowed), nothing else) additionally names Sub, a subclass of
+# Allowed that the policy never allowed: class policy is exact membership, not issubclass
+_NAMES_SUB = _NAMES_FLAT + [b"vc45mod.Sub"]
+NAMES_BY_CFG = {0: _NAMES_SUB, 1: _NAMES_FLAT, 2: _NAMES_FLAT, 3: _NAMES_PKG}
 NCFG = 4
 (T_MODULE, T_CLASS, T_FUNCTION, T_CLASSTAG, T_METHOD, T_INSTANCE, T_REFERENCE, T_DEREFERENCE, T_LIST, T_TUPLE,
  T_DICT, T_PERSISTENT, T_UNPERSISTABLE, T_ATOM) = range(14)
